@@ -41,7 +41,10 @@ LineOK(rec) ==
       DstEntry(k) == Lookup(F, P.dstReal[k])
       TaskOK(k) ==
         LET t == tasks[k] IN
-        CASE t.mode = "copy" ->        \* (b)
+        CASE k \in P.refuse ->         \* (c)+(d): <source>.bak is taken, the file fails: original bytes stay, non-zero exit (below)
+               (DstEntry(k).k = "f" /\ DstEntry(k).c = Stat(T, Comps(t.dst), TRUE).c)
+               \/ Reject(l, "a file whose backup name is taken must be left with its original bytes")
+          [] t.mode = "copy" ->        \* (b)
                (DstEntry(k).k = "f" /\ DstEntry(k).c = SrcBytes(t.srcs[1])) \/ Reject(l, "sync copy is not verbatim")
           [] t.mode = "link" ->
                (DstEntry(k).k = "l" /\ DstEntry(k).t = Stat(T, Comps(t.srcs[1]), FALSE).t) \/ Reject(l, "link not recreated")
@@ -62,7 +65,7 @@ LineOK(rec) ==
       Untouched == \A e \in NonDir(T) : e.p \in dsts \/ Same(e, Lookup(F, e.p))
       \* (c)/(e) nothing new appears except the destinations (in particular no *.bak)
       NothingNew == \A f \in NonDir(F) : f.p \in dsts \/ Lookup(T, f.p).k # "none"
-      AnyFail == \E k \in DOMAIN tasks : Fails(tasks[k])
+      AnyFail == \E k \in DOMAIN tasks : Fails(tasks[k]) \/ k \in P.refuse
   IN /\ (P.unspec = {} /\ P.hazard = {}) \/ Reject(l, "BINDING scenario is not determined by the documentation")
      /\ \A k \in DOMAIN tasks : TaskOK(k)
      /\ Untouched \/ Reject(l, "a file that is not a destination was modified or removed")
